@@ -372,9 +372,11 @@ func init() {
 					var last *sessionsapi.SessionState
 					lastSplit := false
 					lastTicket := ""
+					lastSecret := ""
 					nops := 1 + r.intn(6)
 					for k := 0; k < nops; k++ {
 						req := jar.request(host)
+						jarReqBefore := jar.request(host)
 						jn, jv := jar.fields()
 						before := append([]shCookie(nil), jar.cs...)
 						rw := httptest.NewRecorder()
@@ -568,12 +570,26 @@ func init() {
 								} else if lastTicket != "" {
 									c.count("redis:ticket-reused")
 								}
+								// ... and its secret: a request of the same browser that is still in flight with the previous cookie (or whose
+								// response arrives out of order) must still be able to open the stored entry
+								if _, sec := ticketPartsOf(signed); lastTicket != "" && id == lastTicket && lastSecret != "" && string(sec) != lastSecret {
+									prevReq := jarReqBefore
+									_, perr := store.Load(prevReq)
+									c.violation("C10", "a later save under the browser's ticket changed the ticket's secret: the cookie the browser held a moment ago no longer opens the stored session",
+										map[string]interface{}{"ticket_reused": true, "load_with_previous_cookie": fmt.Sprint(perr)})
+								} else if lastTicket != "" {
+									c.count("redis:ticket-secret-kept")
+								}
+								if _, sec := ticketPartsOf(signed); len(sec) > 0 {
+									lastSecret = string(sec)
+								}
 								lastTicket = id
 							}
 						} else {
 							// ---- C11 monitor (and the clear half of C10)
 							last = nil
 							lastTicket = ""
+							lastSecret = ""
 							if lerr == nil {
 								c.violation("C11", "a session still loads after Clear was applied to the browser",
 									map[string]interface{}{"store": storeKind, "cookie_name_len": len(name), "jar_after": jar.show(), "op": op})
